@@ -111,7 +111,10 @@ func scanMetaOutMode(c *core.Ctx, collect func(f *types.Func, idx int, ok bool))
 		if fd.Body == nil || fileIsTestSupport(c.Program, fd.Pos()) {
 			return
 		}
-		if !all && (fd.Recv == nil || !fd.Name.IsExported() || !(strings.Contains(core.RecvTypeName(fd), "Evaluator") || strings.Contains(core.RecvTypeName(fd), "Protocol"))) {
+		// reported: the exported methods of evaluators and protocols, and the exported package-level operations of
+		// core/rlwe that take an input element and an output element (ring-degree switching)
+		pkgLevelOp := fd.Recv == nil && fd.Name.IsExported() && (c.IsFixture || strings.HasPrefix(rel, "core/rlwe"))
+		if !all && !pkgLevelOp && (fd.Recv == nil || !fd.Name.IsExported() || !(strings.Contains(core.RecvTypeName(fd), "Evaluator") || strings.Contains(core.RecvTypeName(fd), "Protocol"))) {
 			return
 		}
 		info := pk.TypesInfo
@@ -128,10 +131,10 @@ func scanMetaOutMode(c *core.Ctx, collect func(f *types.Func, idx int, ok bool))
 			if isCiphertextPtr(p.Type()) && (p.Name() == "opOut" || p.Name() == "ctOut" || p.Name() == "ciphertextOut") {
 				outP = p
 				outIdx = i
-			} else if all && outP == nil && isOutParamName(p.Name()) && (isCiphertextPtr(p.Type()) || strings.Contains(p.Type().String(), "rlwe.Element[")) {
+			} else if (all || pkgLevelOp) && outP == nil && isOutParamName(p.Name()) && (isCiphertextPtr(p.Type()) || strings.Contains(p.Type().String(), "rlwe.Element[")) {
 				outP = p
 				outIdx = i
-			} else if isCiphertextPtr(p.Type()) || strings.Contains(p.Type().String(), "Operand") || strings.Contains(p.Type().String(), "ElementInterface") {
+			} else if isCiphertextPtr(p.Type()) || strings.Contains(p.Type().String(), "Operand") || strings.Contains(p.Type().String(), "ElementInterface") || pkgLevelOp && strings.Contains(p.Type().String(), "rlwe.Element[") {
 				hasIn = true
 			}
 		}
@@ -348,15 +351,11 @@ func scanMetaOutMode(c *core.Ctx, collect func(f *types.Func, idx int, ok bool))
 					if !s && !seenRead {
 						if p, what := readsOutMeta(nd); p != token.NoPos {
 							guarded := false
-							var child ast.Node = nd
-							for q := pm[child]; q != nil; child, q = q, pm[q] {
-								if is, ok := q.(*ast.IfStmt); ok && is.Body == child {
-									ast.Inspect(is.Cond, func(y ast.Node) bool {
-										if be, ok := y.(*ast.BinaryExpr); ok && be.Op == token.EQL && (isOut(be.X) || isOut(be.Y)) {
-											guarded = true
-										}
-										return true
-									})
+							for _, h := range holdsAt(pm, nd) {
+								for _, be := range equalitiesOf(h.cond, h.pos) {
+									if isOut(be.X) || isOut(be.Y) {
+										guarded = true
+									}
 								}
 							}
 							if !guarded {
